@@ -37,6 +37,8 @@ ENCODED = ["twisted.web.http:HTTPChannel.lineReceived", "twisted.web.http:HTTPCh
 # shared machinery: the lifted world
 # ------------------------------------------------------------------------------------------------
 
+lbytes.NORMALISE = True   # all-concrete pieces of a partly symbolic buffer become real strs again
+
 LB = lift.lift("twisted.protocols.basic", names=["LineReceiver", "_PauseableMixin"])
 LA = lift.lift("twisted.web._abnf")
 LH = lift.lift("twisted.web.http_headers", overrides={"_istoken": LA._istoken}, encode_calls=True)
